@@ -112,7 +112,15 @@ def run_makezip(scenario, D, IN):
 
     def fake_make_nuwiki(fsdir, metabook=None, wiki_options=None, pod_client=None, status=None):
         # make_nuwiki needs the network; the publish step under test only needs a nuwiki directory
-        shutil.copytree(os.path.join(IN, "nuwiki"), fsdir)
+        # (written with plain open/write like mwlib's fsoutput does, not sendfile)
+        srcdir = os.path.join(IN, "nuwiki")
+        for d, _dirs, files in os.walk(srcdir):
+            os.makedirs(os.path.join(fsdir, os.path.relpath(d, srcdir)), exist_ok=True)
+            for fn in files:
+                with open(os.path.join(d, fn), "rb") as f:
+                    data = f.read()
+                with open(os.path.join(fsdir, os.path.relpath(d, srcdir), fn), "wb") as f:
+                    f.write(data)
     buildzip.make_nuwiki = fake_make_nuwiki
 
     class Pod:
@@ -158,8 +166,6 @@ def run_download(scenario, D, IN):
     def handler(request):
         calls[0] += 1
         if scenario == "retry429" and calls[0] == 1:
-            return httpx.Response(429, content=b"slow down")
-        if scenario == "partial429" and calls[0] == 1:
             return httpx.Response(429, content=b"slow down")
         if scenario == "midfail":
             return httpx.Response(200, stream=Body(fail_after=5))
